@@ -34,12 +34,20 @@ Fixpoint clean_stmt (st : stmt) : bool :=
   | SSet f _ => negb (ckind f)
   | SIf c b1 b2 => clean_cond c && clean_block b1 && clean_block b2
   | SWhile c b1 b2 => clean_cond c && clean_block b1 && clean_block b2
-  | STry b1 _ b2 b3 => clean_block b1 && clean_block b2 && clean_block b3 && jfree_block b3
+  | STry b1 hs b2 b3 => clean_block b1 && clean_blocks hs && clean_block b2 && clean_block b3 && jfree_block b3
   | SWith _ b1 => clean_block b1
   | _ => true
   end
 with clean_block (b : block) : bool :=
-  match b with BNil => true | BCons st r => clean_stmt st && clean_block r end.
+  match b with BNil => true | BCons st r => clean_stmt st && clean_block r end
+with clean_blocks (h : blocks) : bool :=
+  match h with HNil => true | HCons b r => clean_block b && clean_blocks r end.
+
+Lemma clean_hsel hs : forall n h, clean_blocks hs = true -> hsel hs n = Some h -> clean_block h = true.
+Proof.
+  induction hs as [|b r IH]; intros n h P E; simpl in *; [discriminate|].
+  apply andb_true_iff in P; destruct P as [Pb Pr]. destruct n; [injection E as <-; exact Pb | eapply IH; eassumption].
+Qed.
 
 Definition agree (s sl : store) : Prop := forall h, ckind h = false -> sl h = s h.
 Definition outside_c (k : nat) (f : flag) : Prop := forall j, k <= j -> f <> cflag j.
@@ -152,6 +160,27 @@ Proof.
     pose proof (IH1 J1 c k u false) as A. destruct (cont_block c k u false b) as [[b' k1] h1]. simpl in A; subst h1.
     pose proof (IH2 J2 c k1 (u || false)) as B. destruct (cont_blocks c k1 (u || false) r) as [[r' k2] h2]. simpl in B; subst h2.
     reflexivity.
+Qed.
+
+(* the handler an exception is dispatched to is lowered like any block *)
+Lemma cont_hsel hs : forall c k u n h, hsel hs n = Some h ->
+  exists kk uu, k <= kk /\ hsel (fst (fst (cont_blocks c k u hs))) n = Some (fst (fst (cont_block c kk uu false h))) /\
+                (snd (cont_block c kk uu false h) = true -> snd (cont_blocks c k u hs) = true).
+Proof.
+  induction hs as [|b r IH]; intros c k u n h E; simpl in *; [discriminate|].
+  destruct (cont_block c k u false b) as [[b' k1] u1] eqn:E1. destruct (cont_blocks c k1 (u || u1) r) as [[r' k2] u2] eqn:E2.
+  destruct n.
+  - injection E as <-. exists k, u. rewrite E1. simpl. split; [lia|]. split; [reflexivity | intros ->; reflexivity].
+  - destruct (IH c k1 (u || u1) n h E) as [kk [uu [L [Hs Hu]]]]. rewrite E2 in Hs, Hu. simpl in *.
+    assert (L1 : k <= k1) by (pose proof (proj1 (proj2 cont_mono3) b c k u false) as X; rewrite E1 in X; exact X).
+    exists kk, uu. split; [lia|]. split; [exact Hs | intros U; rewrite (Hu U); apply orb_true_r].
+Qed.
+
+Lemma cont_hsel_none hs : forall c k u n, hsel hs n = None -> hsel (fst (fst (cont_blocks c k u hs))) n = None.
+Proof.
+  induction hs as [|b r IH]; intros c k u n E; simpl in *; [reflexivity|].
+  destruct (cont_block c k u false b) as [[b' k1] u1] eqn:E1. destruct (cont_blocks c k1 (u || u1) r) as [[r' k2] u2] eqn:E2.
+  destruct n; [discriminate|]. simpl. pose proof (IH c k1 (u || u1) n E) as X. rewrite E2 in X. exact X.
 Qed.
 
 Definition cpost (c : flag) (k : nat) (o : outcome) (hit : bool) (sl sl' : store) : Prop :=
@@ -354,10 +383,11 @@ Proof.
     split; [|exact LC]. intros Cl c k u sl Oc Kc A Pre. specialize (LC Cl c k u Oc Kc). simpl in LC, Pre |- *.
     destruct (cont_block (cflag k) (S k) false false body) as [[body' k1] used]. destruct (cont_block c k1 u false orelse) as [[orelse' k2] ho].
     simpl in *. destruct (LC sl A Pre) as [sl' [R X]]. exists sl'. split; [apply run_one; exact R | exact X].
-  - (* while: return *)
-    intros t body orelse s d tc d1 tr s1 d2 Ec _ IHb.
+  - (* while: return / raise *)
+    intros t body orelse s d tc d1 tr o s1 d2 Ec _ IHb Ho.
+    assert (Eo : co o = o) by (destruct Ho as [-> | ->]; reflexivity).
     assert (LC : clean_stmt (SWhile t body orelse) = true -> forall c k u, outside_c k c -> ckind c = true ->
-                 cloop_claim (SWhile t body orelse) s c k u d (tc ++ tr) ORet s1 d2).
+                 cloop_claim (SWhile t body orelse) s c k u d (tc ++ tr) o s1 d2).
     { intros Cl c k u Oc Kc.
       simpl in Cl. apply andb_true_iff in Cl; destruct Cl as [Cl Co]. apply andb_true_iff in Cl; destruct Cl as [Ct Cb].
       simpl. pose proof (IHb Cb (cflag k) (S k) false false) as IB.
@@ -368,14 +398,14 @@ Proof.
       assert (A0 : agree s sl0) by (unfold sl0; destruct used; [apply agree_upd_c; [apply ckind_cflag | exact A] | exact A]).
       destruct (IB sl0 (outside_c_S k) (ckind_cflag k) A0) as [sl1 [Rb [A1 Pb]]].
       { simpl. intros [U|U]; try discriminate. unfold sl0. rewrite U. apply upd_same. }
-      simpl in Rb, Pb.
-      destruct (cbody_keeps c k ORet used sl0 sl1 Oc Kc Pb) as [Kc1 Kh1].
+      simpl in Rb, Pb. rewrite Eo in *.
+      destruct (cbody_keeps c k o used sl0 sl1 Oc Kc Pb) as [Kc1 Kh1].
       assert (S0c : sl0 c = sl c) by (unfold sl0; destruct used; [apply upd_other, outside_c_g, Oc | reflexivity]).
       assert (S0h : forall h, outside_c k h -> sl0 h = sl h) by (intros h Oh; unfold sl0; destruct used; [apply upd_other, outside_c_g, Oh | reflexivity]).
       exists sl1. rewrite <- (ceval_agree t s sl d Ct A) in Ec. split.
-      - eapply RWhileRet; [exact Ec |].
+      - eapply RWhileOut; [exact Ec | | exact Ho].
         unfold sl0 in Rb. destruct used; [change tr with ([] ++ tr); eapply RConsN; [constructor | exact Rb] | exact Rb].
-      - split; [exact A1|]. split; [discriminate|]. split.
+      - split; [exact A1|]. split; [intros ->; destruct Ho; discriminate|]. split.
         + intros _. rewrite Kc1. exact S0c.
         + intros h Kh Oh N. rewrite (Kh1 h Kh Oh N). apply S0h, Oh. }
     split; [|exact LC]. intros Cl c k u sl Oc Kc A Pre. specialize (LC Cl c k u Oc Kc). simpl in LC, Pre |- *.
@@ -391,7 +421,7 @@ Proof.
     intros body hs orelse final s d tr1 s1 d1 tr2 o2 s2 d2 tr3 s3 d3 _ IHb _ IHo _ IHf. split; [|intros; exact I].
     intros Cl c k u sl Oc Kc A Pre. simpl in Cl.
     apply andb_true_iff in Cl; destruct Cl as [Cl Jf]. apply andb_true_iff in Cl; destruct Cl as [Cl Cf].
-    apply andb_true_iff in Cl; destruct Cl as [Cb Co].
+    apply andb_true_iff in Cl; destruct Cl as [Cl Co]. apply andb_true_iff in Cl; destruct Cl as [Cb Ch].
     simpl in Pre |- *.
     pose proof (IHb Cb c k u false sl Oc Kc A) as IB.
     pose proof (proj1 (proj2 cont_mono3) body c k u false) as L1.
@@ -419,10 +449,10 @@ Proof.
       * intros N. rewrite C3, (Q2 N). exact C1.
       * intros h Kh Oh N. rewrite (F3 h Kh (outside_c_mono _ _ _ L02 Oh) N), (Q3 h Kh (outside_c_mono _ _ _ L1 Oh) N). apply P3; assumption.
   - (* try: body jumps, finally *)
-    intros body hs orelse final s d tr1 ob s1 d1 tr3 s3 d3 _ IHb Nb _ IHf. split; [|intros; exact I].
+    intros body hs orelse final s d tr1 ob s1 d1 tr3 s3 d3 _ IHb Nb Nr _ IHf. split; [|intros; exact I].
     intros Cl c k u sl Oc Kc A Pre. simpl in Cl.
     apply andb_true_iff in Cl; destruct Cl as [Cl Jf]. apply andb_true_iff in Cl; destruct Cl as [Cl Cf].
-    apply andb_true_iff in Cl; destruct Cl as [Cb Co].
+    apply andb_true_iff in Cl; destruct Cl as [Cl Co]. apply andb_true_iff in Cl; destruct Cl as [Cb Ch].
     simpl in Pre |- *.
     pose proof (IHb Cb c k u false sl Oc Kc A) as IB.
     pose proof (proj1 (proj2 cont_mono3) body c k u false) as L1.
@@ -442,17 +472,78 @@ Proof.
     { intros h Kh Oh N. rewrite (F3 h Kh (outside_c_mono _ _ _ L02 Oh) N). apply P3; assumption. }
     exists sl3. split; [|split; [exact A3|]].
     + apply run_one. destruct ob; try congruence.
-      * eapply RTryJ; [exact R1 | discriminate | exact R3].
+      * eapply RTryJ; [exact R1 | discriminate | discriminate | exact R3].
       * (* the body continued: in the lowered program it completes with the flag set and the else clause is skipped *)
         destruct (P1 eq_refl) as [Ct ->]. simpl in R1.
         replace (tr1 ++ tr3) with (tr1 ++ [] ++ tr3) by reflexivity.
         eapply RTryN; [exact R1 | apply else_skipped, Ct | exact R3].
-      * eapply RTryJ; [exact R1 | discriminate | exact R3].
-      * eapply RTryJ; [exact R1 | discriminate | exact R3].
-      * eapply RTryJ; [exact R1 | discriminate | exact R3].
+      * eapply RTryJ; [exact R1 | discriminate | discriminate | exact R3].
+      * eapply RTryJ; [exact R1 | discriminate | discriminate | exact R3].
+      * eapply RTryJ; [exact R1 | discriminate | discriminate | exact R3].
     + split; [|split; [|exact HP]].
       * intros E. destruct (P1 E) as [X ->]. split; [rewrite C3; exact X | reflexivity].
       * intros N. rewrite C3. apply P2, N.
+  - (* try: body raises, no handler, finally *)
+    intros body hs orelse final s d tr1 s1 d1 tr3 s3 d3 _ IHb Eh _ IHf. split; [|intros; exact I].
+    intros Cl c k u sl Oc Kc A Pre. simpl in Cl.
+    apply andb_true_iff in Cl; destruct Cl as [Cl Jf]. apply andb_true_iff in Cl; destruct Cl as [Cl Cf].
+    apply andb_true_iff in Cl; destruct Cl as [Cl Co]. apply andb_true_iff in Cl; destruct Cl as [Cb Ch].
+    simpl in Pre |- *.
+    pose proof (IHb Cb c k u false sl Oc Kc A) as IB.
+    pose proof (proj1 (proj2 cont_mono3) body c k u false) as L1.
+    destruct (cont_block c k u false body) as [[body' k1] h1] eqn:E1.
+    pose proof (proj1 (proj2 cont_mono3) orelse c k1 (u || h1) false) as L2.
+    destruct (cont_block c k1 (u || h1) false orelse) as [[orelse' k2] h2] eqn:E2.
+    pose proof (IHf Cf c k2 (u || h1 || h2) false) as IFN.
+    pose proof (proj1 (proj2 jfree_nohit) final Jf c k2 (u || h1 || h2) false) as H3.
+    destruct (cont_block c k2 (u || h1 || h2) false final) as [[final' k3] h3] eqn:E3.
+    pose proof (cont_hsel_none hs c k3 (u || h1 || h2 || h3) _ Eh) as Eh'.
+    destruct (cont_blocks c k3 (u || h1 || h2 || h3) hs) as [[hs' k4] h4] eqn:E4.
+    simpl in *. subst h3.
+    destruct IB as [sl1 [R1 [A1 [P1 [P2 P3]]]]]. { intros [H|H]; [discriminate|]. apply Pre. rewrite H; reflexivity. }
+    assert (L02 : k <= k2) by lia.
+    destruct (IFN sl1 (outside_c_mono _ _ _ L02 Oc) Kc A1) as [sl3 [R3 [A3 [F1 [F2 F3]]]]]. { intros [H|H]; discriminate. }
+    assert (C3 : sl3 c = sl1 c) by (apply F2; discriminate).
+    assert (HP : forall h, ckind h = true -> outside_c k h -> h <> c -> sl3 h = sl h).
+    { intros h Kh Oh N. rewrite (F3 h Kh (outside_c_mono _ _ _ L02 Oh) N). apply P3; assumption. }
+    exists sl3. split; [|split; [exact A3|]].
+    + apply run_one. eapply RTryU; [exact R1 | exact Eh' | exact R3].
+    + split; [discriminate|]. split; [|exact HP].
+      intros N. rewrite C3. apply P2, N.
+  - (* try: body raises, handler runs, finally *)
+    intros body hs orelse final s d tr1 s1 d1 h tr2 oh s2 d2 tr3 s3 d3 _ IHb Eh _ IHh _ IHf. split; [|intros; exact I].
+    intros Cl c k u sl Oc Kc A Pre. simpl in Cl.
+    apply andb_true_iff in Cl; destruct Cl as [Cl Jf]. apply andb_true_iff in Cl; destruct Cl as [Cl Cf].
+    apply andb_true_iff in Cl; destruct Cl as [Cl Co]. apply andb_true_iff in Cl; destruct Cl as [Cb Ch].
+    simpl in Pre |- *.
+    pose proof (IHb Cb c k u false sl Oc Kc A) as IB.
+    pose proof (proj1 (proj2 cont_mono3) body c k u false) as L1.
+    destruct (cont_block c k u false body) as [[body' k1] h1] eqn:E1.
+    pose proof (proj1 (proj2 cont_mono3) orelse c k1 (u || h1) false) as L2.
+    destruct (cont_block c k1 (u || h1) false orelse) as [[orelse' k2] h2] eqn:E2.
+    pose proof (IHf Cf c k2 (u || h1 || h2) false) as IFN.
+    pose proof (proj1 (proj2 jfree_nohit) final Jf c k2 (u || h1 || h2) false) as H3.
+    pose proof (proj1 (proj2 cont_mono3) final c k2 (u || h1 || h2) false) as L3.
+    destruct (cont_block c k2 (u || h1 || h2) false final) as [[final' k3] h3] eqn:E3.
+    destruct (cont_hsel hs c k3 (u || h1 || h2 || h3) _ _ Eh) as [kk [uu [Lk [Eh' Hu]]]].
+    destruct (cont_blocks c k3 (u || h1 || h2 || h3) hs) as [[hs' k4] h4] eqn:E4.
+    simpl in *. subst h3.
+    destruct IB as [sl1 [R1 [A1 [P1 [P2 P3]]]]]. { intros [H|H]; [discriminate|]. apply Pre. rewrite H; reflexivity. }
+    assert (C1 : sl1 c = sl c) by (apply P2; discriminate).
+    assert (L0k : k <= kk) by lia.
+    destruct (IHh (clean_hsel _ _ _ Ch Eh) c kk uu false sl1 (outside_c_mono _ _ _ L0k Oc) Kc A1) as [sl2 [R2 [A2 [Q1 [Q2 Q3]]]]].
+    { intros [H|H]; [discriminate|]. rewrite C1. apply Pre. rewrite (Hu H). rewrite ?orb_true_r; reflexivity. }
+    assert (L02 : k <= k2) by lia.
+    destruct (IFN sl2 (outside_c_mono _ _ _ L02 Oc) Kc A2) as [sl3 [R3 [A3 [F1 [F2 F3]]]]]. { intros [H|H]; discriminate. }
+    assert (C3 : sl3 c = sl2 c) by (apply F2; discriminate).
+    exists sl3. split; [|split; [exact A3|]].
+    + apply run_one. eapply RTryH; [exact R1 | exact Eh' | exact R2 | exact R3].
+    + split; [|split].
+      * intros E. destruct (Q1 E) as [X Y]. split; [rewrite C3; exact X | rewrite (Hu Y); rewrite ?orb_true_r; reflexivity].
+      * intros N. rewrite C3, (Q2 N). exact C1.
+      * intros h0 Kh Oh N. rewrite (F3 h0 Kh (outside_c_mono _ _ _ L02 Oh) N), (Q3 h0 Kh (outside_c_mono _ _ _ L0k Oh) N). apply P3; assumption.
+  - (* raise *) intros l s d. split; [|intros; exact I]. intros _ c k u sl Oc Kc A _. exists sl. simpl.
+    split; [apply run_one; constructor|]. split; [exact A | apply cpost_refl; discriminate].
   - (* nil *) intros s d _ c k u cur sl Oc Kc A _. exists sl. simpl. split; [constructor|]. split; [exact A | apply cpost_refl; discriminate].
   - (* cons, first statement completes *)
     intros st r s d tr s1 d1 tr2 o2 s2 d2 _ IHs _ IHr Cl c k u cur sl Oc Kc A Pre.
@@ -488,6 +579,7 @@ Proof.
       * apply run_bapp_jump; [exact R1 | discriminate].
       * destruct (P1 eq_refl) as [Ct ->]. rewrite E2 in SK. simpl in SK, R1.
         rewrite <- (app_nil_r tr). eapply run_bapp; [exact R1 | apply SK, Ct].
+      * apply run_bapp_jump; [exact R1 | discriminate].
       * apply run_bapp_jump; [exact R1 | discriminate].
       * apply run_bapp_jump; [exact R1 | discriminate].
       * apply run_bapp_jump; [exact R1 | discriminate].
